@@ -49,7 +49,7 @@ def run(cx):
             pushes.append((b, loc, kind))
         for loc, lab in call_sites(b, "HalfConnection::receive"):
             recvs.append((b, loc))
-    with cx.instance("C08.a", "T1 GUARD (emission typestate)", "each event kind is emitted only in its allowed connection states", floor=22) as inst:
+    with cx.instance("C08.a", "T1 GUARD (emission typestate)", "each event kind is emitted only in its allowed connection states", floor=14) as inst:
         need = {
             "Connect": [[r"is\(%s,Pending\)" % ST]],
             "Disconnect": [[r"is\(%s,Active\)" % ST], [r"is\(%s,Closing\)" % ST]],
@@ -80,12 +80,12 @@ def run(cx):
                 inst.site(sbb, None, "packet sink pushes Event::Receive")
                 if not ok:
                     inst.violation(sbb.path, "Event::Receive", "the packet sink no longer emits Receive")
-    with cx.instance("C08.b", "T2 PAIR", "every terminal event is followed on all paths by leaving to Closed/Fin", floor=12) as inst:
+    with cx.instance("C08.b", "T2 PAIR", "every terminal event is followed on all paths by leaving to Closed/Fin", floor=7) as inst:
         for b, loc, kind in pushes:
             if kind in ("Disconnect", "Error(Timeout)") or (kind == "Error(handshake)" and b.path.startswith("client::")):
                 ws = [l for l, ps, v in state_writes(b) if v in ("Closed", "Fin")]
                 cx.followed_by(inst, b, [(loc, "push " + kind)], ws, "terminal %s without leaving" % kind, "state = Closed | Fin")
-    with cx.instance("C08.c", "T1 GUARD (transitions)", "state is written only along Pending->Active, Active->Closing, {Active,Closing}->Closed, any->Fin", floor=20) as inst:
+    with cx.instance("C08.c", "T1 GUARD (transitions)", "state is written only along Pending->Active, Active->Closing, {Active,Closing}->Closed, any->Fin", floor=11) as inst:
         allowed = {"Active": ["Pending"], "Closing": ["Active"], "Closed": ["Active", "Closing"]}
         for b in endpoint_bodies(R):
             for loc, ps, v in state_writes(b):
@@ -99,7 +99,7 @@ def run(cx):
                 dnf = [[r"is\(%s,%s\)" % (ST, s)] for s in allowed[v]]
                 cx.guard(inst, b, [(loc, "state = " + v)], dnf, construct="transition to %s from a wrong state" % v,
                          why="a finished or closing connection must never become %s again" % v, checked_before=True)
-    with cx.instance("C08.d", "T2 order", "within a handler, delivery precedes the terminal event and nothing is emitted for that connection after it", floor=10) as inst:
+    with cx.instance("C08.d", "T2 order", "within a handler, delivery precedes the terminal event and nothing is emitted for that connection after it", floor=7) as inst:
         for b, loc, kind in pushes:
             if kind not in ("Disconnect", "Error(Timeout)", "Error(handshake)"):
                 continue
@@ -136,6 +136,9 @@ def run(cx):
     from props.shared import leave_implies_terminal, dispatch_table
     leave_implies_terminal(cx, "C08.e")
     dispatch_table(cx, "C08.f")
+    # nothing after the end: a connection that left the address map is terminal, so timers that still hold it are no-ops
+    from props.shared import removal_implies_fin
+    removal_implies_fin(cx, "C08.g")
 
 
 SELFTEST = [
